@@ -3,7 +3,17 @@ from vp.simple import DriverCheck
 D = DriverCheck("C15", "c15", ["c15.c"], ["asan-nopool"],
     rule="every document over the line/inline/macro alphabets up to the level's length x extension sets is parsed with mmd_engine_parse_string; the tree is walked (visit budget) and checked exactly as the statement says: root is DOC_START spanning [0,len), spans inside the source, next/prev mutually consistent, siblings in non-decreasing start, mate symmetric; re-checked after each of 6 exports and after parse_substring on every line-aligned range; `tail` shortcuts and first->prev are tallied (n_aux2, n_aux1), not judged; distinct = distinct (token count, outputs) hashes",
     assumptions=["the statement does not mention the `tail` shortcut nor child-inside-parent containment; neither is part of the verdict"])
-run, replay, prepare = D.run, D.replay, D.prepare
+from vp import core
+def _undecided(rep):
+    """An export that does not return (the self-referential-note defect recorded under C01/C02) leaves no tree to judge:
+    such cases are reported as undecided here, not as a C15 violation and not as a C15 finding."""
+    for sig in list(rep.viol):
+        v = rep.viol[sig]
+        if (sig == "hang" or sig.startswith("asan:stack-overflow")) and v["cases"] and all(core.self_referential(c.get("src", "")) for c in v["cases"]):
+            rep.assumptions.append("undecided (export does not return, see C01 finding self-referential-note): %d case(s), e.g. %r" % (v["count"], v["cases"][0].get("src")))
+            del rep.viol[sig]
+def run(tier): return D.run(tier, post=_undecided)
+replay, prepare = D.replay, D.prepare
 META = dict(level="exploration", engine="E1",
     technique="bounded-exhaustive enumeration of inputs; structural invariant evaluated on the real token tree after parse, after every export and after every sub-range parse, under ASan without the pool",
     text="All documents up to the stated length over one or two representatives per token/line kind are parsed and the exposed tree is checked against the statement's invariants at every observation point an API user has; enum-range relations the tables rely on are evaluated against the current headers.",
